@@ -1,5 +1,5 @@
 NAME = 'D-apply'
-PROPERTIES = ['C09', 'C14']
+PROPERTIES = ['C09', 'C14', 'C15']
 ENGINE = 'verus'
 CLASS = 'U'
 DOC = ('DeleteExecutor::execute_internal (executor delete/executor.rs), from the collected (position, row) pairs to the end - how a DELETE is APPLIED: the '
